@@ -146,6 +146,13 @@ func buildScenario(a loadArgs) (*scenario, string) {
 		put(j(proj, a.Dir, "inc.yaml"), merge(map[string]any{"services": map[string]any{"svc": svc}}, top))
 		base, relbase = a.Wd+"/"+a.Dir, j(a.Dir)
 		stages = []string{j(a.Dir)}
+	case "include-multi":
+		// one include entry with two files: the first fixes the project directory, the second (elsewhere) overrides it
+		put(mainFile, map[string]any{"include": []any{map[string]any{"path": []any{j(a.Dir, "inc.yaml"), j("elsewhere", a.Dir2, "over.yaml")}}}, "services": map[string]any{"main": map[string]any{"image": "m"}}})
+		put(j(proj, a.Dir, "inc.yaml"), map[string]any{"services": map[string]any{"svc": map[string]any{"image": "first"}}})
+		put(j(proj, "elsewhere", a.Dir2, "over.yaml"), merge(map[string]any{"services": map[string]any{"svc": svc}}, top))
+		base, relbase = a.Wd+"/"+a.Dir, j(a.Dir)
+		stages = []string{j(a.Dir)}
 	case "include-pd":
 		put(mainFile, map[string]any{"include": []any{map[string]any{"path": j(a.Dir, "inc.yaml"), "project_directory": a.Dir2}}, "services": map[string]any{"main": map[string]any{"image": "m"}}})
 		put(j(proj, a.Dir, "inc.yaml"), merge(map[string]any{"services": map[string]any{"svc": svc}}, top))
@@ -161,6 +168,12 @@ func buildScenario(a loadArgs) (*scenario, string) {
 	case "extends":
 		put(mainFile, map[string]any{"services": map[string]any{"svc": map[string]any{"extends": map[string]any{"file": j(a.Dir, "base.yaml"), "service": "b"}, "labels": map[string]any{"own": "./l"}}}})
 		put(j(proj, a.Dir, "base.yaml"), map[string]any{"services": map[string]any{"b": svc}})
+		base, relbase = a.Wd+"/"+a.Dir, j(a.Dir)
+		stages = []string{j(a.Dir)}
+	case "extends-chain":
+		// the extended service itself extends a sibling of the same (other-directory) file
+		put(mainFile, map[string]any{"services": map[string]any{"svc": map[string]any{"extends": map[string]any{"file": j(a.Dir, "base.yaml"), "service": "b"}}}})
+		put(j(proj, a.Dir, "base.yaml"), map[string]any{"services": map[string]any{"b": map[string]any{"extends": map[string]any{"service": "c"}, "labels": map[string]any{"mid": "./l"}}, "c": svc}})
 		base, relbase = a.Wd+"/"+a.Dir, j(a.Dir)
 		stages = []string{j(a.Dir)}
 	case "extends2":
@@ -435,7 +448,7 @@ var c12LoadAttrs = []string{"build.context", "build.additional_contexts", "env_f
 var c12LoadShapes = []string{"./x", "x/y", "../x", ".", "/vabs", "~/x", "C:\\x", "\\\\srv\\share\\d", "https://h/x.git", "git@h:x", "docker-image://img",
 	"..", "x/../..", "a//b/", "C:/x", "github.com/o/r", "./github.com/o/r", "./~", "~", ".hidden", "./C:/x", "é/x", "../../x"}
 
-var c12Origins = []string{"main", "override", "include1", "include-pd", "include2", "extends", "extends2", "include-extends"}
+var c12Origins = []string{"main", "override", "include1", "include-pd", "include2", "extends", "extends2", "include-extends", "include-multi", "extends-chain"}
 var c12PlainDirs = []string{"sub", "sub/deep", "../sib", "."}
 var c12PlainDirs2 = []string{"sub", "sub/deep", "../sib2"}
 var c12OddDirs = []string{"~", "github.com/o", "git@h", "C:", "~x/y"}
